@@ -205,6 +205,21 @@ reg("C09", "fault_enumeration",
     "DESIGN.md section 3, C09")
 
 
+reg("C12", "exploration",
+    "Model-based stateful search on one virtual time line that drives the reference agent's engine clock AND every clock source the "
+    "client could consult (time.time, time.monotonic, perf_counter, hence loop.time): Hypothesis generates histories (2..12 steps "
+    "quick, ..30 thorough) of request (get, getnext, set, walk) / advance(dt in {1, 30, 149..152, 300, 3600, 86400 x k}) / reboot for all "
+    "security levels, with conformant or non-conformant discovery replies (foreign msgID +1 / -1 / random, no bindings, Response "
+    "instead of Report). Oracle: the first datagram of a new client is a well-formed discovery probe; later requests carry the "
+    "discovered engine id as security engine id and (unless configured) context engine id; a foreign discovery msgID raises "
+    "InvalidResponseId and nothing else is sent; the client stays usable afterwards; and EVERY request succeeds however far the "
+    "agent's clock has advanced. Failures after an agent reboot are attributed to the known finding stale_boots_after_reboot only "
+    "when trigger (reboot since the client's discovery, auth level) and signature (SnmpError 'Not in time window') both match.",
+    "Trusts lib/vagent.py's RFC 3414 timeliness check (150 s window on boots/time); only API outcomes and datagrams are judged.",
+    "model-based stateful property testing (Hypothesis histories) on a virtual clock shared by agent and client",
+    "DESIGN.md section 3, C12")
+
+
 def main():
     present = sorted(os.path.basename(p)[:3].upper()
                      for p in glob.glob(os.path.join(VERIF, "checks", "c[0-9][0-9]_*.py")))
